@@ -3,6 +3,8 @@
 -/
 import AuthProofs.Ladder
 import AuthProofs.StoreSeq
+import AuthProofs.Finality
+import AuthModel.Oidc.Sched
 namespace AuthProps.C04
 open AuthModel AuthModel.Oidc
 
@@ -71,6 +73,62 @@ example : valuesGet (parseQuery (B "State=x&state=a&state=b")).1 (B "state") = B
 example : (parseQuery (B "code=1;state=2")).2 = false := by decide
 example : (parseQuery (B "code=%zz")).2 = false := by decide
 
+/-! ### every interleaving: the login state is single-use up to the overlap window -/
+
+/-- CONSUMPTION, FOR EVERY SCHEDULE. Any number of checks of one filter, interleaved in any way on a store that answers
+    like the session map. Once the store has acknowledged `ClearAuthorizationState(sid)` - a callback does that after its
+    exchange and validation succeeded (`clear_consumes`) - the ONLY callbacks that can still send a code to the token
+    endpoint for `sid` are those that had already read the login state BEFORE the clearing: the overlap window of
+    concurrent callbacks, in which the statement is silent. A callback that starts afterwards finds no login state - nobody
+    writes login state under an existing id (`hfresh`, C06) - and makes no exchange: a state is single-use. -/
+theorem consumed_state_no_later_exchange (cfg : Cfg) (o : Oracles) (reqOf : Nat → Req) (prevOf : Nat → Headers)
+    (m0 mEnd : SpecMap) (pre mid post : List Ev) (eC eX : Ev) (sid uri code ru v cid cs : Str)
+    (hruns : ∀ t, IsRun (process cfg o (reqOf t) (prevOf t)) (threadTrace (pre ++ eC :: (mid ++ eX :: post)) t))
+    (hstore : Reach m0 (pre ++ eC :: (mid ++ eX :: post)) mEnd)
+    (hfresh : ∀ e ∈ pre ++ eC :: (mid ++ eX :: post), e.act = .gen → ∀ n s v, e.res ≠ .gen sid n s v)
+    (hC : eC.act = .clearAuth sid ∧ eC.res = .done true)
+    (hX : eX.act = .idp (.code uri code ru v cid cs)) (hsid : sessionIdFromCookie cfg (reqOf eX.tid).cookie = sid) :
+    ∃ q ∈ pre, q.tid = eX.tid ∧ ∃ a, q.act = .getAuth sid ∧ q.res = .auth (.ok (some a)) :=
+  exchange_after_consumption_shape cfg o reqOf prevOf m0 mEnd pre mid post eC eX sid uri code ru v cid cs hruns hstore hfresh hC hX hsid
+
+/- Non-vacuity: two callbacks of one login overlap - both read the login state, the first exchanges, validates, clears and
+   stores, then the second exchanges. The global execution satisfies every hypothesis of the theorem. -/
+def cfgX : Cfg :=
+  { clientId := B "c", clientSecret := B "s", callbackUri := B "https://h/cb", cbScheme := B "https",
+    cbHost := B "h", cbPort := [], cbPath := B "/cb", authUri := B "https://i/a", tokenUri := B "https://i/t",
+    scopes := [B "openid"], cookiePrefix := B "p", idHeader := B "authorization", idPreamble := [],
+    access := none, logout := some (B "/logout", B "https://i/out") }
+def cbX : Req := { http := true, scheme := B "https", host := B "h", path := B "/cb?code=K&state=ST",
+                   cookie := B "__Host-p-authservice-session-id-cookie=s" }
+def wX : StoreW := { kind := 0, mem := (MemStore.empty 0 0).setAuth 0 (B "s")
+                       { state := B "ST", nonce := B "N", requestedUrl := B "https://h/app", codeVerifier := B "V" } }
+def oX : Oracles :=
+  { attrs := fun s => if s = B "T1" then some { exp := 1000, aud := [B "c"], nonce := .str (B "N") } else none,
+    sigOK := fun _ => true, s256 := fun v => v }
+def scX : Script := { idp := .body { idToken := B "T1", accessToken := [], refreshToken := [], expiresIn := 0, tokenType := B "Bearer" } }
+def tX : Thread := (Thread.spawn 200 scX (process cfgX oX cbX)).1
+def x1 := tX.step wX 200           -- callback 1 reads the login state
+def y1 := tX.step x1.1 200         -- callback 2 reads it too (overlap)
+def x2 := x1.2.1.step y1.1 200     -- 1: code exchange
+def x3 := x2.2.1.step x2.1 200     -- 1: key lookup
+def x4 := x3.2.1.step x3.1 200     -- 1: ClearAuthorizationState
+def x5 := x4.2.1.step x4.1 200     -- 1: SetTokenResponse, answers
+def evsOf (tid : Nat) (l : List (Act × ARes)) : List Ev := l.map fun x => { tid := tid, act := x.1, res := x.2 }
+def preX : List Ev := evsOf 1 x1.2.2 ++ evsOf 2 y1.2.2 ++ evsOf 1 x2.2.2 ++ evsOf 1 x3.2.2
+def eCX : Ev := { tid := 1, act := .clearAuth (B "s"), res := .done true }
+def midX : List Ev := evsOf 1 (x4.2.2.drop 1) ++ evsOf 1 x5.2.2
+def eXX : Ev := { tid := 2, act := .idp (.code (B "https://i/t") (B "K") (B "https://h/cb") (B "V") (B "c") (B "s")), res := .idp scX.idp }
+def trX : List Ev := preX ++ eCX :: (midX ++ eXX :: [])
+def m0X : SpecMap := Spec.setAuth (fun _ => none) (B "s") { state := B "ST", nonce := B "N", requestedUrl := B "https://h/app", codeVerifier := B "V" } 0
+example : x4.2.2.head? = some (Act.clearAuth (B "s"), ARes.done true) := by decide
+example : IsRun (process cfgX oX cbX) (threadTrace trX 1) ∧ IsRun (process cfgX oX cbX) (threadTrace trX 2) := by decide
+example : ∃ mEnd, Reach m0X trX mEnd := by
+  have h : (replay m0X trX).isSome = true := by decide
+  cases hr : replay m0X trX with
+  | none => simp [hr] at h
+  | some m' => exact ⟨m', replay_sound _ _ _ hr⟩
+example : sessionIdFromCookie cfgX cbX.cookie = B "s" := by decide
+
 end AuthProps.C04
 
 #print axioms AuthProps.C04.exchange_requires_state
@@ -79,3 +137,4 @@ end AuthProps.C04
 #print axioms AuthProps.C04.clear_consumes
 #print axioms AuthProps.C04.callback_without_state_no_exchange
 #print axioms AuthProps.C04.query_robust
+#print axioms AuthProps.C04.consumed_state_no_later_exchange
